@@ -611,6 +611,14 @@ func exec(line string) hx.Result {
 		}
 		return execSeq(capn, strings.Fields(f[2]))
 	}
+	if mode == "vol" {
+		seed, err1 := strconv.ParseUint(f[1], 10, 64)
+		count, err2 := strconv.Atoi(f[2])
+		if err1 != nil || err2 != nil || count < 0 || count > 100000 {
+			return hx.Result{Obs: "badcase"}
+		}
+		return execVol(fam, seed, count)
+	}
 	if mode == "hold" {
 		capn, err := strconv.Atoi(f[1])
 		if err != nil {
@@ -937,6 +945,7 @@ func gen(g *hx.Gen) {
 	// results held, inputs scribbled, two storages interleaved, recovered panic (hold.go)
 	genHold(g, pool)
 	genLargeReuse(g, pool)
+	genVol(g)
 	// reuse sequences: ~50 graphs through one storage/partition pair, sizes going up and down
 	for s := 0; s < g.Pick(150, 1500); s++ {
 		capn := g.Rng.Range(4, g.Pick(12, 16))
